@@ -13,12 +13,15 @@ EXTENDS Codec
 
 Zero(t, m) == ZeroOf(t, m)
 
-\* positional arguments fill the fields in order, keyword arguments by field index; the rest keeps the zero value
+\* positional arguments fill the fields in order, keyword arguments by field index; the rest keeps the zero value.
+\* An argument that is None ([k |-> "none"]) is an unspecified one, positional or keyword.
+IsNone(a) == a = [k |-> "none"]
 Init(t, m, args, kwargs) ==
   LET z == Zero(t, m)
       KwIdx == {kwargs[j][1] : j \in 1..Len(kwargs)}
       KwVal(i) == kwargs[CHOOSE j \in 1..Len(kwargs) : kwargs[j][1] = i][2]
-  IN [z EXCEPT !.vals = [i \in 1..Len(z.vals) |-> IF i <= Len(args) THEN args[i] ELSE IF i \in KwIdx THEN KwVal(i) ELSE z.vals[i]]]
+  IN [z EXCEPT !.vals = [i \in 1..Len(z.vals) |-> IF i <= Len(args) /\ ~IsNone(args[i]) THEN args[i]
+                                              ELSE IF i > Len(args) /\ i \in KwIdx /\ ~IsNone(KwVal(i)) THEN KwVal(i) ELSE z.vals[i]]]
 
 \* path element: [k |-> "f", i |-> field index]  or  [k |-> "e", i |-> element index (1-based)]
 RECURSIVE UpdPath(_, _, _)
